@@ -2,7 +2,7 @@
    termination of the table method (Forest/TerminationRun.v, run_total_spec)
    decides, for every key list, whether a class pumps or has exactly n terms,
    which is the only thing Positional.v used Classical_Prop.classic for. *)
-From Coq Require Import ZArith List Bool Lia.
+From Coq Require Import ZArith List ListDec Bool Lia Arith Wf_nat.
 From CSS Require Import Forest.Spec Forest.Model Forest.Basics Forest.Invariant Forest.Correct
   Forest.Theorems Forest.Run Forest.Extractor Forest.ExtractorProofs Forest.ExtractorRun
   Forest.ExtractorTheorems Forest.TerminationDefs Forest.TerminationRun
@@ -43,5 +43,30 @@ Proof.
   apply run_total_spec.
 Qed.
 
+(* positional determinacy without any axiom: Positional.positional_strong with the value dichotomy
+   decided by the table method (valued_total) instead of Classical_Prop.classic *)
+Theorem positional_strong_total : forall R : list fkey,
+  exists R', incl R' R /\ NoDup (map parent R') /\
+             forall c v, derivable R c v -> derivable R' c v.
+Proof.
+  intros R. remember (length R) as n eqn:En. revert R En.
+  induction n as [n IH] using lt_wf_ind. intros R En.
+  destruct (ListDec.NoDup_dec Nat.eq_dec (map parent R)) as [ND|ND].
+  - exists R. split; [apply incl_refl|]. split; auto.
+  - destruct (dup_positions _ ND) as (i & j & Hi & Hj & Hne & E).
+    rewrite map_length in Hi, Hj.
+    change O with (parent dummy) in E. rewrite !map_nth in E.
+    assert (exists k, (k < length R)%nat /\
+              forall c v, derivable R c v -> derivable (remove_at k R) c v) as (k & Hk & Hd).
+    { destruct (two_rules_one_redundant_valued R i j Hi Hj Hne E
+                  (valued_total _ _) (valued_total _ _)) as [H|H]; eauto. }
+    destruct (IH (length (remove_at k R))) with (R := remove_at k R)
+      as (R' & Hincl & HND & HD); auto.
+    { rewrite remove_at_length; auto. lia. }
+    exists R'. split; [|split; auto].
+    intros x Hx. apply (remove_at_incl k R). apply Hincl; auto.
+Qed.
+
 Print Assumptions minimal_one_rule_per_class_total.
 Print Assumptions extract_one_rule_per_class_total.
+Print Assumptions positional_strong_total.
